@@ -121,6 +121,10 @@ func NewTable(b *bytes.Buffer) (t Table, err error) {
 }
 
 func NewTableCustom(defs *[]RouteDef) (t Table, err error) {
+	// a JSON 'null' from the custom backend decodes into a nil pointer
+	if defs == nil {
+		return nil, errors.New("route: missing route definitions")
+	}
 
 	t = make(Table)
 	for _, d := range *defs {
